@@ -32,7 +32,7 @@ CHECKS["C02"] = dict(
          "Second property file props/C02x.v (21 theorems): __init__/to_pack_list/from_unpack_list of the 16 old-style payload classes, "
          "translated from the AST every run (tr_oldstyle, fail closed), round-trip on every legal instance at any offset "
          "(oldstyle_glue_roundtrip, oldstyle_class_roundtrip composed with msg_roundtrip, one <Class>_roundtrip each), tied by "
-         "running constructor/to_pack_list/from_unpack_list/encode/decode of real instances against the translated functions in Coq.",
+         "running constructor/to_pack_list/from_unpack_list/encode/decode of real instances against the translated functions in Coq. Third property file props/C02y.v (14 theorems): the pack/unpack bodies of every Packer class and the Serializer methods are translated from the AST every run (tr_packers, fail closed) and proved to refine the wire model on every byte string and offset (gen_unpack_refines_wire, gen_pack_refines_wire, message- and list-level variants), so the round-trip and bounds theorems hold of the translated code.",
     note="Trusted: Coq kernel; tr_wire introspection; hand model M02_wire (correspondence-checked per run); CPython struct/array/"
          "socket; str<->UTF-8 bijection; tr_oldstyle (AST translation of the old-style classes' glue) and the CPython struct/join/"
          "slice/range model M02_oldstyle. Open finding: array formats use machine byte order (documented big-endian).",
@@ -79,11 +79,11 @@ CHECKS["C16"] = dict(
          "order while the number of distinct offers is at most the waiting capacity; the waiting area is bounded; content is attached "
          "only if it hashes to the pointer; the public dump reloads to the same elements, in any chunk order. The old wake-one "
          "behaviour is proved order-dependent (_refuted). Tied to the real classes by differential runs over all tree shapes x all "
-         "arrival permutations (<= 5/6 tokens) and random larger trees, with a closure oracle evaluated on the implementation.",
+         "arrival permutations (<= 5/6 tokens) and random larger trees, with a closure oracle evaluated on the implementation. Second property file props/C16x.v (6 theorems): Token and TokenTree methods (gather_token, chain reaction, verify, get_root_path, get_missing, serialize/unserialize_public) are translated from the AST every run (tr_tokentree, fail closed); gen_refines_hand_model operation by operation incl. raised exceptions, and the soundness / completeness / order-independence / round-trip theorems restated over the translated code.",
     note="Trusted: Coq kernel; hand model (correspondence-checked, bounded by generated histories); injective renaming of digests and "
          "signatures for the bulk of the runs; SHA3 and signatures enter only as tables from hashlib/ECCrypto. Completeness assumes "
          "wire-form predecessor pointers and distinct offers <= unchained_max_size. add() and direct dict writes are not modelled.",
-    technique="Coq proof (invariant + nested induction over the chain reaction), differential correspondence, closure oracle",
+    technique="Coq proof (closure characterisation) over an AST-translated token tree (refinement to the hand model) + exhaustive small trees + correspondence",
     design="5/C16")
 
 CHECKS["C01"] = dict(
@@ -168,11 +168,11 @@ CHECKS["C10"] = dict(
          "request is resolved at most once; identities are exclusive while outstanding; futures get their configured outcome on timeout; "
          "shutdown is final; a registered request is resolved within two loop iterations after its deadline (20 theorems). The real "
          "classes are driven one _run_once at a time on a virtual clock, observed schedules are replayed on the model inside Coq, and an "
-         "independent oracle of the property is evaluated on what the implementation did (exhaustive small-scope event orders + random).",
+         "independent oracle of the property is evaluated on what the implementation did (exhaustive small-scope event orders + random). Second property file props/C10x.v (8 theorems): RequestCache.add/has/get/pop/passthrough/_on_timeout/clear/shutdown and the NumberCache constructors are translated statement by statement from the AST every run (tr_reqcache, fail closed) into a small imperative language interpreted over the model state; gen_refines_hand_model (grun = run on every op list), so all theorems transfer to the translated code.",
     note="Trusted: Coq kernel; hand model M10_reqcache and the harness; the reading of CPython asyncio that a task with a scheduled "
          "wake-up is still cancellable and one _run_once = one model iteration. Single thread (locks not modelled); on_timeout callbacks "
          "neither raise nor block; integer delays. Model follows fixes cd5ba9d, ded0d72.",
-    technique="Coq invariant + trace-simulation proof; lockstep trace-inclusion correspondence against the manually stepped asyncio loop",
+    technique="Coq proof (invariants over all op histories) over AST-translated request-cache functions (refinement) + exhaustive/virtual-time correspondence",
     design="5/C10")
 CHECKS["C15"] = dict(
     text="Coq theorems (23) over a model of the DHT store path with SHA-1, base64 and the signature scheme as Section variables: a store "
@@ -181,11 +181,11 @@ CHECKS["C15"] = dict(
          "the requester's own mid; lookups report (data, key) only if the signature verifies and with the highest version per signer; "
          "versions never regress under any put sequence; after clean exactly the unexpired values remain. Limits and periods are "
          "regenerated from the source. Tied to a real DHTDiscoveryCommunity on simnet/vtime by differential runs on generated request "
-         "histories (incl. the node's own timers) evaluated inside Coq, with an independent oracle and shrinking.",
+         "histories (incl. the node's own timers) evaluated inside Coq, with an independent oracle and shrinking. Second property file props/C15x.v (20 theorems): Value/Storage.put/get/clean, Node.blocked, token generation and checking, unserialize_value, add_value, post_process_values and the decisions of on_store_request/on_find_request/token_maintenance are translated from the AST every run (tr_dht_handlers, fail closed); each generated definition equals the hand model's (gen_*_is_*), gen_refines_hand_model, the per-peer rate limit (blocked_rule, blocked_request_changes_nothing) and the C15 theorems restated over the generated node.",
     note="Trusted: Coq kernel; Section hypotheses (SHA-1 collision-free, unforgeable signatures, distinct os.urandom secrets); "
          "tr_dht_consts; hand model M15_dht_store; harness (whole-second virtual clock, hand packing). closest_nodes is an observed input "
          "(C14). Not modelled: per-node rate limit, the crawl, IPv6/multi-interface peers. Model follows fix 3aa386f.",
-    technique="Coq invariant/refinement proofs over an executable model + constants translator + differential correspondence + oracle",
+    technique="Coq proof over AST-translated DHT store path (refinement to the hand model; rate limit) + regenerated constants + model-based correspondence",
     design="5/C15")
 CHECKS["C19"] = dict(
     text="Coq proof (15 theorems) for every store meeting a stated commit/kill contract: every history of processes (open + insert calls, "
@@ -193,7 +193,7 @@ CHECKS["C19"] = dict(
          "without error, contains every acknowledged record unchanged (key-consistent workloads), shows only whole records of started "
          "calls, equals a prefix of the workload, and rebuilds a pseudonym whose tree verifies (C16). Insert functions and schema scripts "
          "are regenerated from the source (tr_db). Each run SIGKILLs real processes at every such point (plus VM-instruction and timer "
-         "kills in thorough), reopens in a fresh process and compares with the model and with an independent oracle.",
+         "kills in thorough), reopens in a fresh process and compares with the model and with an independent oracle. Second property file props/C19x.v (7 theorems): the version-1 to version-2 upgrades of IdentityDatabase and AttestationsDB are inside the crash model - a statement-level transaction machine with Python sqlite3's rules explicit (implicit BEGIN before DML, executescript commits first then autocommit, commit only if open) - and proved all-or-nothing and restartable for every kill list (identity_upgrade_all_or_nothing, wallet_upgrade_all_or_nothing, *_never_half_done; split_upgrade_refuted for a split script); kill-before-every-statement experiments on real version-1 files compared with the model.",
     note="Trusted: the store contract (SQLite WAL, synchronous=NORMAL vs process kill; power loss out of scope); hand model of "
          "Database.commit/__enter__/__exit__/open/executescript (shape-checked); tr_db; harness (wrappers, ack log, event-to-instant "
          "mapping, template-forked children). Upgrade SQL not modelled (single-transaction obligation + kill experiments). "
@@ -209,7 +209,7 @@ CHECKS["C12"] = dict(
          "nothing and can be re-added; blacklisted mids and addresses are never verified; a snapshot reloads to exactly the verified "
          "peers' preferred addresses; load_snapshot terminates on every byte string. Tied on every run to the real Network/Peer classes by "
          "breadth-first exploration of all operation sequences (depth 3-4 full alphabet, 4-6 reduced) plus random 200-step sequences with "
-         "state-exact comparison (chained hash of return value + full abstracted state) after every operation, and an independent oracle.",
+         "state-exact comparison (chained hash of return value + full abstracted state) after every operation, and an independent oracle. Second property file props/C12x.v (5 theorems): the snapshot codec is C02's wire model (no private codec), host-name records are modelled; record_boundary_exact, snapshot_never_raises, snapshot_roundtrip, packed_loads_in_order, truncated_snapshot_loads_complete_records, derived from C02's pack_unpack_fmt.",
     note="Trusted: Coq kernel; hand model M12_network and the harness abstraction (61-bit chained hash comparison). Assumes fresh, "
          "caller-unmodified Peer arguments, inet_ntop-form addresses (host-name snapshot records not modelled), mid identified with the "
          "key, blacklists fixed before the first operation; graph_lock/threads not modelled. Model follows the 7 fix commits fb27d78..747eec9.",
@@ -225,11 +225,11 @@ CHECKS["C07"] = dict(
          "plain_unaffected, delivery_filter, documented_constants (constants re-translated every run). Tied to the real TunnelEndpoint / "
          "TunnelCommunity / Circuit / Community objects by exhaustive enumeration of all operation sequences to depth 6 (quick) / 7 "
          "(thorough) over 8 operations (plus three further alphabets), digest-compared with the model evaluated inside Coq, and by "
-         "generated histories incl. queue overflow and real overlays sending through their own code; independent oracle on every run.",
+         "generated histories incl. queue overflow and real overlays sending through their own code; independent oracle on every run. Second property file props/C07x.v (15 theorems): TunnelEndpoint.__init__/set_tunnel_community/set_anonymity/send/notify_listeners and TunnelCommunity.find_circuits are translated from the AST every run (tr_tunnel_ep.write_gen, fail closed, with a frame check on untranslated methods); gen_refines_hand_model (step_gen = step, never raises) and the property theorems restated over the generated code.",
     note="Trusted: Coq kernel; tr_tunnel_ep (literal constants); hand model M07_tunnel_ep; harness (spies on inner send / send_data / "
          "create_circuit, alpha abstraction, 61-bit digest mirror). Assumes the overlay's endpoint is a TunnelEndpoint (Community.__init__ "
          "only warns otherwise), single-threaded use. Cell encryption below send_data belongs to C04/C05. No defect found in scope.",
-    technique="Coq proof (induction/invariants over operation lists) + translated constants + exhaustive-to-depth-7 differential correspondence",
+    technique="Coq invariant proof over an AST-translated endpoint (refinement to the hand model) + exhaustive bounded op families + differential correspondence",
     design="5/C07")
 CHECKS["C13"] = dict(
     text="Coq model of the introduction protocol over a NAT network (17 theorems): for every node state an introducing response is "
@@ -240,7 +240,7 @@ CHECKS["C13"] = dict(
          "by vm_compute) the requester's next contact reaches the introduced peer and both end up verified; same-NAT peers connect over "
          "LAN addresses. The LAN subnet table is translated from the source. Every run replays the configurations on real Community nodes "
          "on a NAT-enforcing simulator and compares each history with the model inside Coq; an independent oracle also judges "
-         "DiscoveryCommunity nodes.",
+         "DiscoveryCommunity nodes. Second property file props/C13x.v (8 theorems): general NAT lemmas (filter_only_by_outbound, mapping_only_by_own_outbound, other_sites_untouched, delivered_was_solicited) and the enlarged space with the introducer itself behind a NAT (6144 configurations decided in the kernel): nat_introducer_reachability wherever the introducer does not share a NAT box with exactly one party; for that class (outside the property's quantifier, which ranges over requester and introduced peer) blind_introducer_refuted, and the implementation agrees - recorded as an observation, not a finding.",
     note="Trusted: the NAT simulator (endpoint-independent mapping, textbook cone filtering, no hairpin, FIFO) and its Gallina twin "
          "(differential-tested); harness (LAN-provider patch, scripted random.choice). Assumes public introducer, IPv4, authentic "
          "senders, fewer than max_peers; symmetric NATs, loss, timeouts outside. The scenario theorem is evaluation over a fixed address "
@@ -253,10 +253,10 @@ CHECKS["C14"] = dict(
          "splits only on the own path, add never fails), closest_nodes returns exactly the k nearest live nodes nearest-first "
          "(specification proved unique), trie set/del/suffixes behave as a pruned finite map, refresh ids lie in their bucket. Checked "
          "every run against the real Trie / Bucket / RoutingTable on exhaustive small-key trie sequences, an exhaustive 4-bit addition "
-         "sweep and random 160-bit histories with clustered ids, with an independent brute-force oracle on the implementation's objects.",
+         "sweep and random 160-bit histories with clustered ids, with an independent brute-force oracle on the implementation's objects. Second property file props/C14x.v (9 theorems): Bucket and RoutingTable methods of dht/routing.py are translated from the AST every run (tr_routing, fail closed; float division of identifiers refused); gen_refines_hand_model for every width and capacity (result, new table and raised exception, every fuel), gen_run_equals_model_run, so every C14 theorem transfers.",
     note="Trusted: Coq kernel; hand model M14_routing (tied by correspondence only); harness Node subclass with settable id/rtt/failed; "
          "integer RTTs; BAD <=> failed >= 2. Model follows fixes d1866e8, 3525098.",
-    technique="Coq invariant proof over operation lists + exhaustive small-scope and random differential testing + brute-force oracle",
+    technique="Coq proof for every width and capacity over an AST-translated routing table (refinement to the hand model) + exhaustive small-width sweeps + correspondence",
     design="5/C14")
 
 CHECKS["C04"] = dict(
@@ -268,7 +268,7 @@ CHECKS["C04"] = dict(
          "add an innermost layer the rendezvous point never opens. Real TunnelCommunity / HiddenTunnelCommunity nodes (1-3 hop circuits "
          "alive together, rendezvous pair) are compared with the model event by event in lockstep (real ciphertexts rendered into a toy "
          "AEAD), incl. flips of every header byte and sampled/all body bytes, truncation, extension, splices, injections; an independent "
-         "oracle peels layers with raw SessionKeys.",
+         "oracle peels layers with raw SessionKeys. The model includes the nested dispatch of datagrams returned through the exit and the re-injection whitelist (repo fix af5d7df): outside_control_message_dropped; ping_answered_on_e2e_circuit; cell kinds (data, ping, speed test) over plain and e2e circuits and tunnel-shaped returned datagrams from three kinds of outside senders are part of the lockstep and oracle.",
     note="AEAD assumed ideal; per-hop keys distinct; Rust endpoint fast path not modelled; relay_early budget is a hypothesis of the path "
          "predicates; DNS stubbed; the 'packet meant for another community' branch of on_data is not exercised by the correspondence. "
          "Model follows fix 1587225.",
@@ -281,7 +281,7 @@ CHECKS["C05"] = dict(
          "removes an entry only when signed by the stored neighbour, and only at the next removal tick; the table invariant holds and "
          "entries are never re-keyed over every history of cells, control messages, timers and forgeries (tables_inv). Real nodes with up "
          "to 4 (quick) / 6 (thorough) concurrent circuits over shared relays under random delivery order, forged cells, creates under "
-         "live ids and the destroy matrix agree with the model event by event; oracle from topology, tagged payloads and object identities.",
+         "live ids and the destroy matrix agree with the model event by event; oracle from topology, tagged payloads and object identities. Forged cells under every known id (7 types x plaintext x relay_early x 3 senders) and several circuits sharing one exit with gated transport opening are part of the scenarios; data_plane_preserves_tables_nested, dispatcher_consumer_needs_first_hop_address.",
     note="AEAD ideal; destroy signature check trusted as in C01; key agreement, payload parsing and candidate choice are oracles; random-id "
          "collisions (2^-32) assumed away; originator-side circuit construction is C08's; do_ping disabled in harness nodes. 'Relay "
          "entries come in inverse pairs' holds at creation only (not an invariant of the code). Model follows fixes 6c217ee, f87da90 (created_never_overwrites_relay).",
